@@ -163,6 +163,14 @@ def coalitions(rng):
     coal = total * k // (s + 1) + rng.choice([-1, 0, 1, 1, 2])
     coal = max(1, min(total - 1, coal))
     lines = []; left = coal
+    if rng.random() < 0.4 and len(S) > 1:
+        # the coalition's members tie with one another: equal blocks, each member first on one of them
+        m0 = max(1, coal // len(S))
+        for i in range(len(S)):
+            head = S[i:] + S[:i]
+            tail = others[:]; rng.shuffle(tail)
+            lines.append((m0, head + tail[:rng.randint(0, len(tail))]))
+        left = coal - m0 * len(S)
     while left > 0:
         m = rng.randint(1, left)
         head = S[:]; rng.shuffle(head)
